@@ -53,6 +53,8 @@ USES = {
     "global-var": (None, 'global $gv\n$gv = {"k": [1, 2]}\nmatch Ev2()\nsend OutG(v=$gv)'),
     # object identity: one dict reachable through two references (two variables; a child flow sharing the parent's context)
     "alias-dict": (None, '$ad = {"k": 1}\n$bd = $ad\nmatch Ev1()\n($bd.update({"k": 2}))\nsend OutAlias(v=$ad["k"])'),
+    # one LIST reachable through two variables (open finding C11-F25: lists are not reference-tracked by the encoder)
+    "alias-list": (None, '$al = [1]\n$bl = $al\nmatch Ev1()\n($al.append(2))\nsend OutAliasL(v=$bl)'),
     "shared-context": (None, '$status = "initial"\n$ctxuid = uid()\nsend StartFlow(flow_id="ctxhelper", flow_instance_uid=$ctxuid, context=$self.context)\nmatch FlowStarted(flow_instance_uid=$ctxuid)\nmatch FlowFinished(flow_instance_uid=$ctxuid)\nsend OutShared(v=$status)'),
 }
 CTXHELPER = {"name": "ctxhelper", "params": [], "loop": None, "body": [{"k": "raw", "text": "match Ev3()"}, {"k": "raw", "text": '$status = "updated by helper"'}]}
@@ -358,6 +360,7 @@ def enumerate_cases(tier):
                 yield {"prog": prog, "hist": base_hist, "uses": [[1, pos, use]], "cuts": list(range(1, len(base_hist))), "mode": mode, "choices": []}
     yield from _activation_cases()
     yield from _runtime_cases()
+    yield from _family_cases()
     # hand-written families shared with C09 (two flows sharing one co-won action, ...): every cut x mode, both tie-break outcomes
     from vf.props import c09
 
@@ -368,6 +371,53 @@ def enumerate_cases(tier):
             for mode in ("age", "both", "save", "every-age"):
                 for choices in ([0], [1]):
                     yield {"text": text, "prog": {"flows": []}, "hist": h, "uses": [], "cuts": list(range(1, len(h))), "mode": mode, "choices": choices}
+
+
+C11_FAMILIES = {
+    # a reference to an action travels to another flow (`return $act`); the flow that started the action ends and is cleaned up
+    # after idle time while the other flow still waits for the action's Finished event (C11-F26)
+    "action-ref-returned": (
+        """flow s
+  start UtteranceBotAction(script="x") as $act
+  return $act
+
+flow main
+  $a = await s
+  match Ev0()
+  match $a.Finished()
+  send OutFin()
+  match Never()
+""",
+        [[["ev", 0, None], ["finished", 0], ["ev", 1, None]], [["ev", 1, None], ["ev", 0, None], ["finished", 0]], [["finished", 0], ["ev", 0, None], ["ev", 0, None]]],
+    ),
+    # one list reachable through two variables, changed in place after the cut (C11-F25, open)
+    "alias-list": (
+        """flow main
+  $al = [1]
+  $bl = $al
+  match Ev1()
+  ($al.append(2))
+  send OutAliasL(v=$bl)
+  match Never()
+""",
+        [[["ev", 0, None], ["ev", 1, None]]],
+    ),
+}
+
+
+def _family_cases():
+    for name, (text, hists) in C11_FAMILIES.items():
+        for h in hists:
+            for mode in ("save", "age", "both", "every-age"):
+                yield {"text": text, "family": name, "prog": {"flows": []}, "hist": h, "uses": [], "cuts": list(range(1, len(h))), "mode": mode, "choices": []}
+
+
+def known(case, violation):
+    """C11-F25 (open): a list that two variables refer to comes back as two lists after a state round trip."""
+    involved = case.get("family") == "alias-list" or any(u[2] == "alias-list" for u in case.get("uses", []))
+    if involved and violation.kind.startswith("behaviour-diverges-") and "OutAliasL" in violation.msg and case.get("mode") in ("save", "both", "every", "every-age"):
+        return "C11-F25"
+    return None
 
 
 def _runtime_cases():
